@@ -133,3 +133,16 @@ Definition PAliased : panic_kind := PMsg "<fnrt> two cells that hold live elemen
 
 Definition go_apart (p q : option nat) : res unit :=
   if go_peq p q then Panic PAliased else Ok tt.
+
+(* ---- a *V result that is not always a fresh struct (translator/fn_heap_rest.go) ----
+   A pointer to a value struct V is held by value: the pointer is the only reference to a fresh
+   struct.  A function whose result of type *V is nil on some path (Tree.Cursor, Tree.Root), or
+   the receiver pointer itself on some path (Cursor.Clone: `if !c.Valid() { return c }`), returns
+   which of the three it is: *)
+Inductive go_vres (V : Type) : Type :=
+| VRecv            (* the receiver pointer itself (nil if the receiver was nil): the SAME object *)
+| VNil             (* nil *)
+| VNew (v : V).    (* a pointer to a fresh struct with this value *)
+Arguments VRecv {V}.
+Arguments VNil {V}.
+Arguments VNew {V} v.
